@@ -66,6 +66,8 @@ MUTANTS = [
     m("C05-misc-no-error-check", "C05", "C05.R5", B, "                self._raise_errors(line, cmd_name)\n                results.append(line)", "                results.append(line)"),
     # appending to the local list before the error test changes nothing a caller can observe (the list dies with the raise)
     m("C05-silent-append-before-check", "C05", "", B, "                self._raise_errors(line, cmd_name)\n                results.append(line)", "                results.append(line)\n                self._raise_errors(line, cmd_name)", kind="silent"),
+    m("C05-store-noreply-false", "C05", "C05.R4", B, "                return {k: True for k in keys}", "                return {k: False for k in keys}"),
+    m("C05-store-keyed-by-wire-key", "C05", "C05.R3", B, "            keys.append(key)\n\n            key = self.check_key(key, self.key_prefix)", "            key = self.check_key(key, self.key_prefix)\n            keys.append(key)"),
     m("C05-silent-delete-ne", "C05", "", B, 'return results[0] == b"DELETED"', 'return results[0] != b"NOT_FOUND"', kind="silent"),
     # ---------------- C06
     m("C06-no-close-on-connect-failure", "C06", "C06.R1", B, "        except Exception:\n            sock.close()\n            raise\n\n        self.sock = sock", "        except Exception:\n            raise\n\n        self.sock = sock"),
@@ -77,6 +79,7 @@ MUTANTS = [
     m("C06-close-not-in-finally", "C06", "C06.R6", B, "            except Exception:\n                pass\n            finally:\n                self.sock = None", "                self.sock = None\n            except Exception:\n                pass"),
     m("C06-no-lazy-connect", "C06", "C06.R5", B, "        if self.sock is None:\n            self._connect()\n\n            # For typing\n            assert self.sock is not None\n\n        try:\n            self.sock.sendall(b\"\".join(cmds))\n\n            if noreply:\n                return []", "        try:\n            self.sock.sendall(b\"\".join(cmds))\n\n            if noreply:\n                return []"),
     # ---------------- C07
+    m("C07-fetch-swallows-known-errors-only", "C07", "C07.R5", B, "                    raise MemcacheUnknownError(line[:32])\n        except Exception:\n            self.close()\n            if self.ignore_exc:\n                return {}\n            raise", "                    raise MemcacheUnknownError(line[:32])\n        except (OSError, MemcacheUnknownError, MemcacheClientError, MemcacheServerError, MemcacheUnknownCommandError, MemcacheUnexpectedCloseError):\n            self.close()\n            if self.ignore_exc:\n                return {}\n            raise\n        except Exception:\n            self.close()\n            raise"),
     m("C07-pooled-get-none", "C07", "C07.R2", B, "                return client.get(key, default)\n            except Exception:\n                if self.ignore_exc:\n                    return default", "                return client.get(key, default)\n            except Exception:\n                if self.ignore_exc:\n                    return None"),
     m("C07-hash-get-many-none", "C07", "C07.R2", H, "result = self._safely_run_func(client, get_func, {}, *new_args, **kwargs)", "result = self._safely_run_func(client, get_func, None, *new_args, **kwargs)"),
     m("C07-connect-outside-try", "C07", "C07.R3", B, "        try:\n            if self.sock is None:\n                self._connect()\n\n                # For typing\n                assert self.sock is not None\n\n            self.sock.sendall(cmd)", "        if self.sock is None:\n            self._connect()\n        try:\n            self.sock.sendall(cmd)"),
